@@ -80,6 +80,13 @@ func invalidCorpus() []CorpusReq {
 	add("electre-k-negative", set(el, -1.0, "methodParameters", "electreCriteria", "c1", "k"))
 	add("electre-q-not-below-p", set(el, M{"b": 2.0}, "methodParameters", "electreCriteria", "c1", "q"))
 	add("electre-p-not-below-v", set(el, M{"b": 1.0}, "methodParameters", "electreCriteria", "c1", "v"))
+	// thresholds out of order ACROSS an absent or zero middle threshold (q above v with p left out / zero, q above p with
+	// nothing else, v below q with p in between and fine)
+	add("electre-q-above-v-p-omitted", set(el, M{"k": 1.0, "q": M{"b": 28.0}, "v": M{"b": 12.0}}, "methodParameters", "electreCriteria", "c1"))
+	add("electre-q-above-v-p-zero", set(el, M{"k": 1.0, "q": M{"b": 28.0}, "p": M{"a": 0.0, "b": 0.0}, "v": M{"b": 12.0}}, "methodParameters", "electreCriteria", "c1"))
+	add("electre-q-equal-v-p-omitted", set(el, M{"k": 1.0, "q": M{"b": 2.0}, "v": M{"b": 2.0}}, "methodParameters", "electreCriteria", "c1"))
+	add("electre-q-above-p-only", set(el, M{"k": 1.0, "q": M{"b": 3.0}, "p": M{"b": 2.0}}, "methodParameters", "electreCriteria", "c2"))
+	add("electre-p-above-v-q-omitted", set(el, M{"k": 1.0, "p": M{"b": 3.0}, "v": M{"b": 2.0}}, "methodParameters", "electreCriteria", "c3"))
 	add("electre-distillation-negative-on-unit-interval", set(el, M{"a": -0.2, "b": 0.1}, "methodParameters", "electreDistillation"))
 	add("electre-distillation-negative-constant", set(el, M{"a": 0.0, "b": -0.1}, "methodParameters", "electreDistillation"))
 	add("electre-distillation-negative-at-zero-only", set(el, M{"a": 1.0, "b": -0.6}, "methodParameters", "electreDistillation"))
